@@ -284,7 +284,7 @@ def check_object(label, factory, methods, symbolic=True):
             fails.append(('frame', '%s: %s changes the object at %s' % (label, name, d[:4]), (name, name)))
         if [snap(a) for a in args] != args_before:
             fails.append(('frame', '%s: %s modifies its argument arrays' % (label, name), (name, name)))
-        if not any(r[1] == 'ret' for r in fresh[name]):
+        if not any(r[1] == 'ret' for r in fresh[name]) and 'may raise' not in name:
             fails.append(('vacuous', '%s: %s returns on no path (%s)' % (label, name, [r[2][:120] for r in fresh[name]][:2]), (name, name)))
     for (n1, c1, a1), (n2, c2, a2) in itertools.product(methods, repeat=2):
         o = make(factory, symbolic)
@@ -503,6 +503,13 @@ def population_objects(part):
                 flat.append(('compute_individual_parameters(flat eta)', lambda o, a: o.compute_individual_parameters(a[0], a[1], **a[2]), lambda t: a_flat(t, d)))
                 if 0 < m.n_hierarchical_dim() < d:
                     flat.append(('compute_individual_parameters(flat eta, hierarchical dimensions)', lambda o, a: o.compute_individual_parameters(a[0], a[1], **a[2]), lambda t: a_flat(t, m.n_hierarchical_dim())))
+            def a_other(t):
+                # a cohort of another size than the one set with set_n_ids (a validation cohort scored with the same model): whether the model
+                # accepts it or rejects it, it stays what it was
+                ncv = {'covariates': A.arr('xo' + t, (n_ids + 1, nc), True)} if nc else {}
+                return [A.arr('th' + t, (n,), True), A.arr('psio' + t, (n_ids + 1, d), True), ncv, A.arr('go' + t, (n_ids + 1, d))]
+            flat += [('compute_log_likelihood [another cohort size; may raise]', lambda o, a: o.compute_log_likelihood(a[0], a[1], **a[2]), a_other),
+                     ('compute_sensitivities(reduce) [another cohort size; may raise]', lambda o, a: o.compute_sensitivities(a[0], a[1], dlogp_dpsi=a[3], reduce=True, **a[2]), a_other)]
             return flat + [('compute_log_likelihood', lambda o, a: o.compute_log_likelihood(a[0], a[1], **a[2]), a_ll),
                     ('compute_sensitivities', lambda o, a: o.compute_sensitivities(a[0], a[1], dlogp_dpsi=a[3], **a[2]), a_se),
                     ('compute_sensitivities(reduce)', lambda o, a: o.compute_sensitivities(a[0], a[1], dlogp_dpsi=a[3], reduce=True, **a[2]), a_se),
